@@ -37,15 +37,21 @@ fn bytes_eq(a: &[u8], b: &[u8]) -> bool {
     true
 }
 
+/// Capacity of the model containers.  Exceeding it is a modelling bound, reported by a panic.
+pub const CAP: usize = 3;
+
+/// Fixed-capacity association list.  Entries are boxed and stored in an array so that
+/// every loop over the container has the constant bound `CAP` and an empty slot is a
+/// null pointer the model checker can decide without solving.
 #[derive(Debug)]
 pub struct VecMap<K, V> {
-    entries: Vec<(K, V)>,
+    entries: [Option<Box<(K, V)>>; CAP],
 }
 
 impl<K, V> Default for VecMap<K, V> {
     fn default() -> Self {
         VecMap {
-            entries: Vec::new(),
+            entries: [None, None, None],
         }
     }
 }
@@ -56,19 +62,27 @@ impl<K: AsRef<[u8]>, V> VecMap<K, V> {
     }
 
     pub fn get<Q: ?Sized + AsRef<[u8]>>(&self, k: &Q) -> Option<&V> {
-        for (key, v) in self.entries.iter() {
-            if bytes_eq(key.as_ref(), k.as_ref()) {
-                return Some(v);
+        let mut i = 0;
+        while i < CAP {
+            if let Some(e) = &self.entries[i] {
+                if bytes_eq(e.0.as_ref(), k.as_ref()) {
+                    return Some(&e.1);
+                }
             }
+            i += 1;
         }
         None
     }
 
     pub fn get_mut<Q: ?Sized + AsRef<[u8]>>(&mut self, k: &Q) -> Option<&mut V> {
-        for (key, v) in self.entries.iter_mut() {
-            if bytes_eq(key.as_ref(), k.as_ref()) {
-                return Some(v);
+        let mut i = 0;
+        while i < CAP {
+            if let Some(e) = &self.entries[i] {
+                if bytes_eq(e.0.as_ref(), k.as_ref()) {
+                    return self.entries[i].as_mut().map(|e| &mut e.1);
+                }
             }
+            i += 1;
         }
         None
     }
@@ -77,19 +91,50 @@ impl<K: AsRef<[u8]>, V> VecMap<K, V> {
     /// this crate looks at it, and returning it would put the recursive drop glue of the
     /// logger tree on every insertion path of the model checker.
     pub fn insert(&mut self, k: K, v: V) {
-        if let Some(slot) = self.get_mut(&k) {
-            std::mem::forget(std::mem::replace(slot, v));
-            return;
+        let mut i = 0;
+        while i < CAP {
+            if let Some(e) = &self.entries[i] {
+                if bytes_eq(e.0.as_ref(), k.as_ref()) {
+                    let old = self.entries[i].replace(Box::new((k, v)));
+                    std::mem::forget(old);
+                    return;
+                }
+            }
+            i += 1;
         }
-        self.entries.push((k, v));
+        let mut i = 0;
+        while i < CAP {
+            if self.entries[i].is_none() {
+                self.entries[i] = Some(Box::new((k, v)));
+                return;
+            }
+            i += 1;
+        }
+        panic!("verif model: VecMap capacity exceeded");
     }
 
-    pub fn values(&self) -> impl Iterator<Item = &V> {
-        self.entries.iter().map(|e| &e.1)
+    pub fn values(&self) -> Values<'_, K, V> {
+        Values { map: self, next: 0 }
     }
+}
 
-    pub fn len(&self) -> usize {
-        self.entries.len()
+/// Index-based iterator: constant bound `CAP`, no pointer comparisons.
+pub struct Values<'a, K, V> {
+    map: &'a VecMap<K, V>,
+    next: usize,
+}
+
+impl<'a, K, V> Iterator for Values<'a, K, V> {
+    type Item = &'a V;
+    fn next(&mut self) -> Option<&'a V> {
+        while self.next < CAP {
+            let i = self.next;
+            self.next += 1;
+            if let Some(e) = &self.map.entries[i] {
+                return Some(&e.1);
+            }
+        }
+        None
     }
 }
 
@@ -110,23 +155,27 @@ impl<'q, K: AsRef<[u8]>, V, Q: ?Sized + AsRef<[u8]>> std::ops::Index<&'q Q> for 
     }
 }
 
-#[derive(Debug, Default)]
+#[derive(Debug)]
 pub struct VecSet<K> {
-    entries: Vec<K>,
+    entries: [Option<K>; CAP],
 }
 
 impl<K: AsRef<[u8]>> VecSet<K> {
     pub fn new() -> Self {
         VecSet {
-            entries: Vec::new(),
+            entries: [None, None, None],
         }
     }
 
     pub fn contains<Q: ?Sized + AsRef<[u8]>>(&self, k: &Q) -> bool {
-        for key in self.entries.iter() {
-            if bytes_eq(key.as_ref(), k.as_ref()) {
-                return true;
+        let mut i = 0;
+        while i < CAP {
+            if let Some(key) = &self.entries[i] {
+                if bytes_eq(key.as_ref(), k.as_ref()) {
+                    return true;
+                }
             }
+            i += 1;
         }
         false
     }
@@ -136,8 +185,15 @@ impl<K: AsRef<[u8]>> VecSet<K> {
         if self.contains(&k) {
             return false;
         }
-        self.entries.push(k);
-        true
+        let mut i = 0;
+        while i < CAP {
+            if self.entries[i].is_none() {
+                self.entries[i] = Some(k);
+                return true;
+            }
+            i += 1;
+        }
+        panic!("verif model: VecSet capacity exceeded");
     }
 }
 
